@@ -33,7 +33,9 @@ def _extract_pattern(deny_item: dict[str, str] | str) -> str:
     """
     if isinstance(deny_item, str):
         return deny_item
-    return deny_item.get("pattern", "")
+    if "pattern" not in deny_item:
+        raise ValueError(f"Deny rule without a 'pattern': {deny_item!r}")
+    return deny_item["pattern"]
 
 
 class PatternValidator:
